@@ -41,7 +41,11 @@ KINDS = ['fold_add', 'fold_max', 'fold_cat', 'fold_iadd_list', 'fold_probe_init'
          'sum_probe_init', 'flatten', 'flatten_lazy', 'flatten_tuple', 'flatten_str', 'flatten_probe_init',
          'merge', 'merge_odict', 'merge_probe_init', 'flatten_fn', 'merge_fn', 'flatten_levels2',
          'flatten_levels2_int', 'flatten_levels2_tuple', 'flatten_levels0', 'flatten_levels3',
-         'merge_factory_odict', 'merge_op_absorb', 'merge_op_first_wins']
+         'merge_factory_odict', 'merge_op_absorb', 'merge_op_first_wins', 'fold_add_shared_start']
+
+# kinds that consume every item by value as soon as they get it (a re-used item container is fine)
+RECYCLE_KINDS = ('flatten', 'flatten_probe_init', 'flatten_fn', 'fold_iadd_list', 'fold_probe_init', 'merge',
+                 'merge_probe_init', 'merge_fn', 'merge_op_absorb', 'merge_op_first_wins')
 
 ITEM_KIND = {
     'fold_add': 'int', 'fold_max': 'int', 'fold_cat': 'any', 'fold_iadd_list': 'list', 'fold_probe_init': 'list',
@@ -49,7 +53,7 @@ ITEM_KIND = {
     'flatten_tuple': 'tuple', 'flatten_str': 'str', 'flatten_probe_init': 'list', 'merge': 'dict',
     'merge_odict': 'dict', 'merge_probe_init': 'dict', 'flatten_fn': 'list', 'merge_fn': 'dict',
     'flatten_levels2': 'list2', 'flatten_levels2_int': 'intlist', 'flatten_levels2_tuple': 'tuple2',
-    'flatten_levels0': 'list', 'flatten_levels3': 'list3', 'merge_factory_odict': 'dict', 'merge_op_absorb': 'dict', 'merge_op_first_wins': 'dict',
+    'flatten_levels0': 'list', 'flatten_levels3': 'list3', 'merge_factory_odict': 'dict', 'merge_op_absorb': 'dict', 'merge_op_first_wins': 'dict', 'fold_add_shared_start': 'intlist',
 }
 
 
@@ -74,6 +78,10 @@ def spec_recipe(kind, sub):
         'merge_odict': ['Merge', s, ['fn', 'OrderedDict']],
         'merge_probe_init': ['Merge', s, P('dict')],
         'merge_factory_odict': ['Merge', s, P('OrderedDict')],     # init is a factory, not a type
+        # a NON-mutating op (operator.add) with an init that hands out one long-lived start object:
+        # the start object is an input like any other and is never written to
+        'fold_add_shared_start': ['Fold', s or ['T', 'T', []], ['probe', 7, 'const', {'t': 'list', 'n': 990001, 'v': [0]}],
+                                  ['fn', 'add']],
         'merge_op_absorb': ['Merge', s, ['fn', 'dict'], ['fn', 'absorb']],
         'merge_op_first_wins': ['Merge', s, ['fn', 'dict'], ['fn', 'first_wins']],
     }.get(kind)
@@ -121,6 +129,12 @@ def gen_case(seed, tier):
     sources = []
     for i in range(nsrc):
         sources.append({'items': gen_items(rng, ik), 'container': rng.choice(['simiter', 'simlist', 'simiter', 'list', 'tuple', 'gen'])})
+    if kind in RECYCLE_KINDS and rng.random() < 0.3:
+        for s_ in sources:
+            its = s_['items']
+            if its and (all(isinstance(x, dict) and x.get('t') == 'list' for x in its)
+                        or all(isinstance(x, dict) and x.get('t') in ('dict',) for x in its)):
+                s_['container'] = 'recycle'
     mode = rng.choice(['repeat', 'repeat', 'interleave', 'interleave', 'fault', 'noniter'] +
                       (['lazy'] * 3 if kind == 'flatten_lazy' else []))
     if kind == 'flatten_levels0' and mode == 'noniter':
@@ -165,6 +179,8 @@ def reference(kind, items):
     items = [plain(x) for x in items]
     if kind == 'fold_add':
         return functools.reduce(operator.add, items, 0)
+    if kind == 'fold_add_shared_start':
+        return functools.reduce(operator.add, items, [0])
     if kind == 'fold_max':
         return functools.reduce(lambda a, b: a if a >= b else b, items, 0)
     if kind == 'fold_cat':
@@ -236,6 +252,20 @@ class World:
         nid = 100 + i
         if c in ('simiter', 'simlist', 'list', 'tuple', 'gen'):
             t = self.B.value({'t': c, 'n': nid, 'v': src['items']})
+        elif c == 'recycle':
+            # a one-shot stream that re-uses ONE container for every item (a cursor, a parser's row
+            # buffer): each item is only valid until the next one is asked for
+            vals = [self.B.value(x) for x in src['items']]
+
+            def recycle(vals=vals):
+                box = None
+                for v in vals:
+                    if box is None:
+                        box = type(v)()
+                    box.clear()
+                    box.extend(v) if isinstance(box, list) else box.update(v)
+                    yield box
+            t = recycle()
         else:
             raise ValueError(c)
         self.elems = getattr(self, 'elems', {})
@@ -298,7 +328,9 @@ def _check_eval(V, st, W, case, i, target, res, snap_before, prev_results, desc)
             for el in _items_of(inner):
                 if el is val:
                     V('no-shared-state', f'result-is-an-input-element/{kind}', 'a fresh accumulator', 'input element returned')
-    if isinstance(val, (list, dict)):
+    if isinstance(val, (list, dict)) and kind != 'fold_add_shared_start':
+        # (with a shared start object and nothing to fold, the result IS the start object: the
+        # workload's doing; what matters there is that the start object never changes: a change shows in the next evaluation's result)
         for p in prev_results:
             if p is val:
                 V('no-shared-state', f'same-accumulator-object-across-evaluations/{kind}', 'distinct objects', 'identical')
